@@ -472,8 +472,8 @@ pub fn check_main(args: &[String]) -> i32 {
         ("C07", "quick") => (12, 2),
         ("C07", _) => (160, 3),
         // C12: clone / data_mut / shared-borrow races in whatever buffer sharing a change introduces
-        ("C12", "quick") => (4, 6),
-        ("C12", _) => (32, 12),
+        ("C12", "quick") => (8, 6),
+        ("C12", _) => (48, 12),
         (_, "quick") => (4, 8),
         _ => (40, 16),
     };
